@@ -357,7 +357,9 @@ def runPrimitive (d : DState) (ts : List String) (obs : String) : Option (DState
     let toks := tokens ((obs.splitOn " # ").headD "")
     let trace := toks.filter (fun t => t.startsWith "act:" || t.startsWith "res:")
     let d2 := applyTrace d1 trace
-    let d3 := if engineIdle d2.m.engine then d2 else fail d2 "!engine-not-idle"
+    let d3a := if engineIdle d2.m.engine then d2 else fail d2 "!engine-not-idle"
+    -- the ownership invariant is re-checked on every state the validated trace goes through
+    let d3 := if waitingOwnedB d3a.m then d3a else fail d3a "!waiting-not-owned"
     -- end of the operation: the manager and the connections process what they were sent
     let d4 := d3.dialCmds.foldl (fun d p => setView d p 1) d3
     let d5 := { d4 with conns := d4.conns.map (fun c => { c with queued := 0 }) }
